@@ -137,6 +137,200 @@ func One(doq bool, qid uint16, n int, seed uint64, rid uint16, rn int, rseed uin
 	return lit, desc, nil
 }
 
+// ---------- concurrent exchanges on one upstream / one connection ----------
+
+type Item struct {
+	Qid      uint16
+	N        int
+	Seed     uint64
+	Rid      uint16
+	Rn       int
+	Rseed    uint64
+	q, reply []byte
+}
+
+// barrier lets every participant go on once all k have arrived (or after 2 s).
+type barrier struct {
+	mu   sync.Mutex
+	n, k int
+	ch   chan struct{}
+}
+
+func newBarrier(k int) *barrier { return &barrier{k: k, ch: make(chan struct{})} }
+func (b *barrier) wait() {
+	b.mu.Lock()
+	b.n++
+	if b.n == b.k {
+		close(b.ch)
+	}
+	b.mu.Unlock()
+	select {
+	case <-b.ch:
+	case <-time.After(2 * time.Second):
+	}
+}
+
+// answerFor: the fake server answers the query it RECEIVED (matched by everything after the id).
+func answerFor(items []*Item, wire []byte) []byte {
+	if len(wire) >= 2 {
+		for _, it := range items {
+			if bytes.Equal(it.q[2:], wire[2:]) {
+				return it.reply
+			}
+		}
+	}
+	return mk(0x7777, 12, 424242) // a query nobody sent
+}
+
+type rtB struct {
+	items   []*Item
+	bar     *barrier
+	mu      sync.Mutex
+	wire    map[int][]byte
+	arrived chan int
+	n       int
+}
+
+// The upstream runs the HTTP exchange in its own goroutine under a fresh context, so a request is
+// attributed to its caller by arrival order: the harness starts the callers one at a time and waits for
+// each one's request to arrive before starting the next.
+func (r *rtB) RoundTrip(req *http.Request) (*http.Response, error) {
+	r.mu.Lock()
+	i := r.n
+	r.n++
+	r.mu.Unlock()
+	r.arrived <- i
+	r.bar.wait() // every request is in flight before any of them is looked at
+	w, err := base64.RawURLEncoding.DecodeString(req.URL.Query().Get("dns"))
+	if err != nil {
+		return nil, err
+	}
+	r.mu.Lock()
+	r.wire[i] = w
+	r.mu.Unlock()
+	return &http.Response{StatusCode: 200, Body: io.NopCloser(bytes.NewReader(answerFor(r.items, w))), Header: http.Header{}, Request: req}, nil
+}
+
+type bstream struct {
+	fstream
+	items []*Item
+	bar   *barrier
+	once  sync.Once
+}
+
+func (s *bstream) Read(p []byte) (int, error) {
+	<-s.fin
+	s.once.Do(func() {
+		s.bar.wait()
+		s.mu.Lock()
+		w := s.wrote.Bytes()
+		var wire []byte
+		if len(w) >= 2 {
+			wire = w[2:]
+		}
+		s.reply = answerFor(s.items, wire)
+		s.mu.Unlock()
+	})
+	return s.fstream.Read(p)
+}
+
+type bqconn struct {
+	quic.Connection
+	mu      sync.Mutex
+	streams []*bstream
+	items   []*Item
+	bar     *barrier
+}
+
+func (c *bqconn) Context() context.Context { return context.Background() }
+func (c *bqconn) OpenStream() (quic.Stream, error) {
+	st := &bstream{items: c.items, bar: c.bar}
+	st.fin = make(chan struct{})
+	c.mu.Lock()
+	c.streams = append(c.streams, st)
+	c.mu.Unlock()
+	return st, nil
+}
+func (c *bqconn) CloseWithError(quic.ApplicationErrorCode, string) error { return nil }
+
+// Batch runs the items concurrently on ONE DoH upstream or ONE QUIC connection and returns the list of
+// Judge.IdZero.icase literals (one per exchange, in item order).
+func Batch(doq bool, items []*Item) (string, map[string]any) {
+	for _, it := range items {
+		it.q = mk(it.Qid, it.N, it.Seed)
+		it.reply = mk(it.Rid, it.Rn, it.Rseed)
+	}
+	k := len(items)
+	bar := newBarrier(k)
+	got := make([]*[]byte, k)
+	errs := make([]error, k)
+	wires := make([][]byte, k)
+	var wg sync.WaitGroup
+	ctx, cancel := context.WithTimeout(context.Background(), 5*time.Second)
+	defer cancel()
+	if doq {
+		qc := &bqconn{items: items, bar: bar}
+		dc := transport.NewQuicDnsConn(qc)
+		rxs := make([]transport.ReservedExchanger, k)
+		for i := range items {
+			rxs[i], _ = dc.ReserveNewQuery()
+		}
+		for i := range items {
+			wg.Add(1)
+			go func(i int) {
+				defer wg.Done()
+				got[i], errs[i] = rxs[i].ExchangeReserved(ctx, items[i].q)
+			}(i)
+		}
+		wg.Wait()
+		for i, st := range qc.streams {
+			if w := st.wrote.Bytes(); len(w) >= 2 && i < k {
+				wires[i] = w[2:]
+			}
+		}
+	} else {
+		r := &rtB{items: items, bar: bar, wire: map[int][]byte{}, arrived: make(chan int, k)}
+		u, e := doh.NewUpstream("https://doh.test/dns-query", r, nil)
+		if e != nil {
+			return "[]", map[string]any{"error": e.Error()}
+		}
+		for i := range items {
+			wg.Add(1)
+			go func(i int) {
+				defer wg.Done()
+				got[i], errs[i] = u.ExchangeContext(ctx, items[i].q)
+			}(i)
+			select {
+			case <-r.arrived:
+			case <-time.After(2 * time.Second):
+			}
+		}
+		wg.Wait()
+		for i := range items {
+			wires[i] = r.wire[i]
+		}
+	}
+	lits := make([]string, k)
+	for i, it := range items {
+		if errs[i] != nil || got[i] == nil || len(*got[i]) < 2 || len(wires[i]) < 2 {
+			lits[i] = hx.App("CId", "false", "0", "0", "0", "0", "0", "0", "9", "9", "9", "9", "9", "9")
+			continue
+		}
+		g, wire := *got[i], wires[i]
+		lits[i] = hx.App("CId", hx.Bool(doq), hx.Ni(int(it.Qid)), hx.Ni(it.N), hx.N(it.Seed), hx.Ni(int(it.Rid)), hx.Ni(it.Rn), hx.N(it.Rseed),
+			hx.Ni(int(binary.BigEndian.Uint16(wire))), hx.Ni(len(wire)-2), hx.N(hx.Sum(wire[2:])),
+			hx.Ni(int(binary.BigEndian.Uint16(g))), hx.Ni(len(g)-2), hx.N(hx.Sum(g[2:])))
+		pool.ReleaseBuf(got[i])
+	}
+	es := []string{}
+	for i, e := range errs {
+		if e != nil {
+			es = append(es, fmt.Sprintf("%d: %v", i, e))
+		}
+	}
+	return hx.List(lits), map[string]any{"doq": doq, "concurrent": k, "errors": es}
+}
+
 // Drive emits id-handling cases; wrap adapts the literal to the caller's case type.
 func Drive(w *hx.Writer, o *hx.Opts, wrap func(string) string) {
 	n := o.Count(80, 2000)
@@ -157,5 +351,27 @@ func Drive(w *hx.Writer, o *hx.Opts, wrap func(string) string) {
 			desc = map[string]any{"error": err.Error()}
 		}
 		w.Emit("id", hx.Case{ID: id, Coq: wrap(lit), Desc: desc})
+	}
+}
+
+// DriveBatches emits batches of concurrent exchanges (C01: a reply only ever goes to the exchange that sent
+// its query, whatever else is in flight on the same upstream).
+func DriveBatches(w *hx.Writer, o *hx.Opts, wrap func(string) string) {
+	n := o.Count(40, 800)
+	ids := []uint16{0, 1, 0xFFFF, 0x1111, 0xBEEF}
+	for i := 0; i < n; i++ {
+		id := fmt.Sprintf("idb:%d", i)
+		if !o.Want(id) {
+			continue
+		}
+		r := hx.NewRNG(o.Seed, id)
+		k := r.Range(2, 6)
+		items := make([]*Item, k)
+		for j := range items {
+			// distinct (length, seed) per item so the fake server can tell the queries apart; ids may repeat
+			items[j] = &Item{Qid: hx.Pick(r, ids), N: 20 + 7*j + r.Intn(5), Seed: r.U64() % 100000, Rid: uint16(r.Intn(65536)), Rn: 15 + 11*j + r.Intn(7), Rseed: r.U64() % 100000}
+		}
+		lit, desc := Batch(r.Bool(), items)
+		w.Emit("id-batch", hx.Case{ID: id, Coq: wrap(lit), Desc: desc})
 	}
 }
